@@ -60,6 +60,8 @@ pub enum Op {
     /// replace the ACL of fabric n (over its CASE session) by admin + one more entry
     AclC(u8),
     LabelC(u8),
+    /// SetVIDVerificationStatement (vendor id) on fabric n over its CASE session
+    VidStmtC(u8),
     CompleteC(u8),
     CompleteP,
     /// open a basic commissioning window over CASE of fabric n (the harness then sets up a PASE session)
@@ -84,6 +86,8 @@ struct FabSummary {
     node_id: u64,
     fabric_id: u64,
     label: String,
+    /// vendor id / digest of the VID verification statement
+    vid: (u16, u64),
     root: u64,
     noc: u64,
     acl: Vec<String>,
@@ -107,6 +111,7 @@ fn memory_config(m: &Matter<'_>) -> Vec<FabSummary> {
                 node_id: f.node_id(),
                 fabric_id: f.fabric_id(),
                 label: f.label().to_string(),
+                vid: (f.vendor_id(), digest(&f.vid_verification_statement().to_vec())),
                 root: digest(&f.root_ca().to_vec()),
                 noc: digest(&f.noc().to_vec()),
                 acl: f.acl_iter().map(|e| format!("{:?}", e)).collect(),
@@ -160,6 +165,12 @@ struct World {
     pase_dev_id: u16,
     /// C07: for every operational session the harness set up: device-side session id -> (fabric index, root, fabric id)
     pub incarnation: BTreeMap<u16, (u8, u64, u64)>,
+    /// C07 reference: fabrics (index, root, fabric id) that are gone by the rules of the protocol - rolled
+    /// back (NOC added under a fail-safe that ended without CommissioningComplete) or removed
+    pub must_be_gone: std::collections::BTreeSet<(u8, u64, u64)>,
+    /// set by the answer judge: CommissioningComplete / RemoveFabric(g) succeeded in this step
+    completed_now: bool,
+    removed_now: Option<u8>,
     pub c07: bool,
     pub c11: bool,
     pub c11_crash_points_checked: u64,
@@ -191,7 +202,7 @@ impl World {
             roots.push((kp, spec, cert));
         }
         let dev = commdrv::boot(&mut exec, &net, 1, &kv, 1000, true);
-        let mut w = World { exec, net, kv, dev: Some(dev), admin, admin_task: None, answer: Rc::new(RefCell::new(None)), roots, next_root: 0, last_csr_key: None, model: Model::default(), committed: Config::default(), boots: 1, violations: Vec::new(), case_sessions: Vec::new(), memory_dirty: false, pase_gen: 0, pase_dev_id: 0, incarnation: BTreeMap::new(), c07: false, c11: false, c11_crash_points_checked: 0 };
+        let mut w = World { exec, net, kv, dev: Some(dev), admin, admin_task: None, answer: Rc::new(RefCell::new(None)), roots, next_root: 0, last_csr_key: None, model: Model::default(), committed: Config::default(), boots: 1, violations: Vec::new(), case_sessions: Vec::new(), memory_dirty: false, pase_gen: 0, pase_dev_id: 0, incarnation: BTreeMap::new(), must_be_gone: Default::default(), completed_now: false, removed_now: None, c07: false, c11: false, c11_crash_points_checked: 0 };
         w.exec.run()?;
         w.after_boot()?;
         w.committed = w.config();
@@ -397,7 +408,7 @@ impl World {
             v.extend([Op::ArmP, Op::Arm0P, Op::CsrP, Op::RootP, Op::AddNocP, Op::CompleteP]);
         }
         for f in fabs {
-            v.extend([Op::ArmC(f), Op::Arm0C(f), Op::CsrUpdC(f), Op::UpdNocC(f), Op::AclC(f), Op::LabelC(f), Op::CompleteC(f), Op::OpenWindowC(f), Op::RevokeC(f)]);
+            v.extend([Op::ArmC(f), Op::Arm0C(f), Op::CsrUpdC(f), Op::UpdNocC(f), Op::AclC(f), Op::LabelC(f), Op::VidStmtC(f), Op::CompleteC(f), Op::OpenWindowC(f), Op::RevokeC(f)]);
         }
         let all: Vec<u8> = memory_config(self.md()).iter().map(|f| f.idx).collect();
         for f in all.iter().filter(|f| self.case_alive(**f)) {
@@ -418,8 +429,22 @@ impl World {
 
     fn apply(&mut self, op: Op) -> Result<(), String> {
         let log_before = self.kv.log_len();
+        let pre = self.model.clone();
+        let pre_fabrics = if self.dev.as_ref().map(|d| d.boot_error.borrow().is_none()).unwrap_or(false) { memory_config(self.md()) } else { vec![] };
+        self.completed_now = false;
+        self.removed_now = None;
         let r = self.apply_inner(op);
         if self.c07 && r.is_ok() {
+            // the reference's view of which fabrics are gone now
+            let ident = |f: u8| pre_fabrics.iter().find(|x| x.idx == f).map(|x| (x.idx, x.root, x.fabric_id));
+            if pre.add_noc && pre.armed_by.is_some() && self.model.armed_by.is_none() && !self.completed_now {
+                if let Some(id) = pre.noc_fabric.and_then(ident) {
+                    self.must_be_gone.insert(id);
+                }
+            }
+            if let Some(id) = self.removed_now.and_then(ident) {
+                self.must_be_gone.insert(id);
+            }
             self.c07_oracle(op);
         }
         if self.c11 && r.is_ok() && !matches!(op, Op::Restart) {
@@ -490,6 +515,7 @@ impl World {
                     }
                     Op::AclC(f) => (f, true, false, commdrv::write_acl(&[(5, vec![NODE_ADMIN]), (3, vec![0x7777])])),
                     Op::LabelC(f) => (f, false, false, commdrv::update_fabric_label("kitchen")),
+                    Op::VidStmtC(f) => (f, false, false, commdrv::set_vid_verification_statement(0x1234)),
                     Op::CompleteC(f) => (f, false, false, commdrv::commissioning_complete()),
                     Op::CompleteP => (0, false, false, commdrv::commissioning_complete()),
                     Op::OpenWindowC(f) => (f, false, true, commdrv::open_basic_window(300)),
@@ -566,13 +592,15 @@ impl World {
         // a change made by the administrator of a fabric that the pending commissioning does not
         // concern is an ordinary committed change of that fabric, armed fail-safe or not
         let touched = match op {
-            Op::AclC(f) | Op::LabelC(f) | Op::GroupKeyC(f) => Some(f),
+            Op::AclC(f) | Op::LabelC(f) | Op::VidStmtC(f) | Op::GroupKeyC(f) => Some(f),
             Op::RemoveFabricC(_, g) => Some(g),
             _ => None,
         };
         let mut independent = touched.is_some() && was_armed.is_none();
         if let (Some(f), Some(by)) = (touched, was_armed) {
-            let pending_fabric = self.model.noc_fabric.or(if by != 0 { Some(by) } else { None });
+            // (a VID verification statement is part of the pending commissioning only if a NOC was added /
+            // updated for that fabric under this fail-safe; otherwise it is an immediate, permanent change)
+            let pending_fabric = if matches!(op, Op::VidStmtC(_)) { self.model.noc_fabric } else { self.model.noc_fabric.or(if by != 0 { Some(by) } else { None }) };
             // (a fabric removal is immediate and permanent whatever the fail-safe says)
             independent = pending_fabric != Some(f) || matches!(op, Op::RemoveFabricC(..));
             if independent && !store_failed {
@@ -729,6 +757,7 @@ impl World {
                     }
                 }
                 if ok {
+                    self.completed_now = true;
                     self.model = Model { window_open: false, ..Model::default() };
                 }
             }
@@ -738,12 +767,18 @@ impl World {
                     self.violations.push(("C08:commissioning-completed-from-the-wrong-context".into(), format!("{:?} (over PASE) succeeded in state {:?}", op, m)));
                 }
                 if ok {
+                    self.completed_now = true;
                     self.model = Model { window_open: false, ..Model::default() };
                 }
             }
             Op::RevokeC(_) => {
                 if ok {
                     self.model = Model::default();
+                }
+            }
+            Op::RemoveFabricC(_, g) => {
+                if ok {
+                    self.removed_now = Some(g);
                 }
             }
             _ => {}
@@ -776,6 +811,12 @@ impl World {
                 continue;
             }
             let current = fabrics.iter().find(|f| f.idx == fab);
+            if let Some(f) = current {
+                if self.must_be_gone.contains(&(f.idx, f.root, f.fabric_id)) {
+                    self.violations.push((format!("C07:{}-session-of-a-fabric-that-was-rolled-back-or-removed-still-usable:after-{}", kind, op_class(op)), format!("after {:?} the device holds a usable {} session (local id {}) of fabric index {} (fabric id {:#x}); by the rules of the protocol that fabric is gone (rolled back or removed), the device still has it", op, kind, ld, fab, f.fabric_id)));
+                    continue;
+                }
+            }
             match (current, self.incarnation.get(&ld)) {
                 (None, _) => self.violations.push((format!("C07:{}-session-outlives-its-fabric:after-{}", kind, op_class(op)), format!("after {:?} the device still holds a usable {} session (local id {}) bound to fabric index {}, which no longer exists", op, kind, ld, fab))),
                 (Some(f), Some((_, root, fabric_id))) if f.root != *root || f.fabric_id != *fabric_id => {
@@ -932,7 +973,7 @@ pub fn execute_mode(history: &[Op], mode: u8) -> Result<(u64, Vec<(String, Strin
         v.sort();
         v
     });
-    let key = digest(&(w.config(), w.committed.clone(), w.model.clone(), fs.0.map(|x| (x.0, x.1)), fs.2, sessions, w.last_csr_key.is_some(), w.next_root, w.kv.0.borrow().fail_attempt.is_some(), w.md().comm_window_state().is_open(), w.memory_dirty));
+    let key = digest(&(w.config(), w.committed.clone(), w.model.clone(), fs.0.map(|x| (x.0, x.1)), fs.2, sessions, w.last_csr_key.is_some(), w.next_root, w.kv.0.borrow().fail_attempt.is_some(), w.md().comm_window_state().is_open(), w.memory_dirty, w.must_be_gone.clone()));
     let en = w.enabled();
     if w.c11 {
         w.c11_final();
@@ -1018,7 +1059,7 @@ pub fn parse_op(s: &str) -> Option<Op> {
                 return Some(Op::RemoveFabricC(f, g));
             }
         }
-        for o in [Op::ArmC(f), Op::Arm0C(f), Op::CsrUpdC(f), Op::UpdNocC(f), Op::AclC(f), Op::LabelC(f), Op::CompleteC(f), Op::OpenWindowC(f), Op::RevokeC(f), Op::GroupKeyC(f)] {
+        for o in [Op::ArmC(f), Op::Arm0C(f), Op::CsrUpdC(f), Op::UpdNocC(f), Op::AclC(f), Op::LabelC(f), Op::VidStmtC(f), Op::CompleteC(f), Op::OpenWindowC(f), Op::RevokeC(f), Op::GroupKeyC(f)] {
             if format!("{:?}", o) == s {
                 return Some(o);
             }
@@ -1052,7 +1093,12 @@ pub fn run_check(ctx: &Ctx) -> i32 {
     let mut total_states = 0usize;
     let mut total_transitions = 0u64;
     let mut per_root = Vec::new();
-    for (name, prefix, d) in [("factory-fresh", vec![], depth), ("one-fabric-commissioned", honest_prefix(), depth)] {
+    // also from the middle of a commissioning: a NOC added / updated under the fail-safe, nothing committed yet
+    let pending_first = vec![Op::ArmP, Op::CsrP, Op::RootP, Op::AddNocP];
+    let mut pending_update = honest_prefix();
+    pending_update.extend([Op::ArmC(1), Op::CsrUpdC(1), Op::UpdNocC(1)]);
+    let d2 = depth - 2;
+    for (name, prefix, d) in [("factory-fresh", vec![], depth), ("one-fabric-commissioned", honest_prefix(), depth), ("first-fabric-pending-under-the-fail-safe", pending_first, d2), ("noc-update-pending-under-the-fail-safe", pending_update, d2)] {
         let r = match bfs(prefix.clone(), d, if ctx.tier == Tier::Quick { 6_000 } else { 400_000 }, 8) {
             Ok(r) => r,
             Err(e) => {
@@ -1075,7 +1121,7 @@ pub fn run_check(ctx: &Ctx) -> i32 {
         .set("depth", json!(depth))
         .set("roots", Value::Array(per_root))
         .set("samples", json!([{"history": honest_prefix().iter().map(|o| format!("{:?}", o)).collect::<Vec<_>>()}]))
-        .set("rule", json!(format!("every history of at most {} operations over the alphabet (ArmFailSafe 60 s / 0 s over PASE / CASE, CSRRequest add / update, AddTrustedRootCertificate, AddNOC, UpdateNOC, ACL write, UpdateFabricLabel, CommissioningComplete right / wrong context, OpenBasicCommissioningWindow, RevokeCommissioning, 61 s pass, restart, next store operation fails), from a factory-fresh node and from a node with one commissioned fabric; states deduplicated on (configuration in memory, persisted blobs, committed configuration, fail-safe state, sessions, harness bookkeeping)", depth)));
+        .set("rule", json!(format!("every history of at most {} operations over the alphabet (ArmFailSafe 60 s / 0 s over PASE / CASE, CSRRequest add / update, AddTrustedRootCertificate, AddNOC, UpdateNOC, ACL write, UpdateFabricLabel, CommissioningComplete right / wrong context, OpenBasicCommissioningWindow, RevokeCommissioning, 61 s pass, restart, next store operation fails), from a factory-fresh node and from a node with one commissioned fabric, and two operations fewer from the middle of a commissioning (NOC added / NOC updated, not completed); the alphabet also has SetVIDVerificationStatement, RemoveFabric and a group key set write; states deduplicated on (configuration in memory, persisted blobs, committed configuration, fail-safe state, sessions, harness bookkeeping)", depth)));
     ev.assume("operational sessions are set up by the harness (pre-established keys) right after AddNOC and after a restart; CASE itself is C01's subject");
     ev.assume("network credentials: the Ethernet build has none to add; the persisted networks blob is part of the compared configuration");
     if total_states < 20 {
